@@ -34,8 +34,11 @@ pub mod fl {
     pub broadcast axiom fn ax_consts()
         ensures is_zero(s_zero()), nonneg(s_zero()), nonneg(s_one()), !is_zero(s_one()), #[trigger] s_flt(s_zero(), s_max());
     // ---- products of finite non-negative factors that stay finite: non-negative, zero iff a factor is zero
-    //      (sign/zero behaviour validated by Kani: k_fmul_sign_zero; absence of underflow to zero for factors that are
-    //      0 or >= 2^-60 and absence of overflow to infinity are ASSUMED: see scores_finite below)
+    //      (validated by Kani for every product the ARC score forms -- two converted u64 values: finite, below f64::MAX,
+    //      zero iff a factor is zero: k_arc_score_finite_below_max, k_fmul_sign_zero; for a finite non-negative factor times
+    //      a factor in [0, 1], the TLRU age factor: finite, non-negative, not larger, zero if a factor is zero:
+    //      k_mul_by_unit_interval; that such a product is zero ONLY if a factor is zero (no underflow) and that products
+    //      with the powf term stay finite are ASSUMED)
     pub broadcast axiom fn ax_mul(a: f64, b: f64)
         requires nonneg(a), nonneg(b)
         ensures nonneg(#[trigger] s_fmul(a, b)), is_zero(s_fmul(a, b)) <==> (is_zero(a) || is_zero(b));
